@@ -34,7 +34,7 @@ def load_known(prop):
 def write_replay(prop, failure, tag="") -> str:
     d = os.path.join(os.environ.get("VERIF_REPLAY_DIR") or os.path.join(VERIF_DIR, "replays"), prop)
     os.makedirs(d, exist_ok=True)
-    name = f"{failure['subcheck']}-{fingerprint([failure['signature'], failure['case']])}.json"
+    name = f"{tag}{failure['subcheck']}-{fingerprint([failure['signature'], failure['case']])}.json"
     path = os.path.join(d, name)
     with open(path, "w") as fh:
         json.dump(
@@ -109,6 +109,13 @@ def run(prop, tier, seed, nworkers, only=None):
                     results.append(json.load(fh))
                 if results[-1]["error"]:
                     errors.append(f"worker {w}: {results[-1]['error']}")
+                    if results[-1].get("error_case"):
+                        ec = results[-1]["error_case"]
+                        path = write_replay(prop, {"subcheck": ec["subcheck"],
+                                                   "signature": "harness-error",
+                                                   "message": results[-1]["error"][:2000],
+                                                   "case": ec["case"]}, tag="harness-error-")
+                        errors.append(f"case kept for triage: {path}")
             elif reason is None:
                 with open(log.name) as fh:
                     tail = fh.read()[-3000:]
